@@ -1,2 +1,2 @@
-verif_harness(c09_alloc c09_main.cpp c09_heaps.cpp)
+verif_harness(c09_alloc c09_main.cpp c09_heaps.cpp c09_pts.cpp c09_large.cpp c09_gstl.cpp c09_iter.cpp)
 target_link_libraries(c09_alloc PRIVATE ${CMAKE_DL_LIBS})
